@@ -8,6 +8,36 @@ use crate::oracle::re::*;
 use crate::util::*;
 use aws_smt_strings::regular_expressions::RegLan;
 
+/// the same questions against the expression as the caller wrote it (only for results of program steps)
+fn check_vs_construction(s: &mut Sess, rep: &mut Report, t: RegLan, k: usize) {
+    let rb = s.run.refs[k].clone();
+    let db = match s.ctx.dfa(&rb) {
+        Ok(d) => d,
+        Err(_) => return,
+    };
+    let cap = closure_cap(s.thorough);
+    if closure_size(&mut s.m, t, cap).is_none() {
+        return;
+    }
+    rep.inc("terms_checked_against_construction");
+    let empty = db.is_empty();
+    if let Ok(got) = guard(|| s.m.is_empty_re(t)) {
+        if got != empty {
+            s.viol(rep, "emptiness", "emptiness:vs-construction", format!("is_empty_re of the construction {} (term {}) = {} but its SMT-LIB language is {}", short(&rb.show(), 160), term_text(t), got, if empty { "empty" } else { "non-empty" }), k);
+            return;
+        }
+    }
+    if let Ok(Some(w)) = guard(|| s.m.get_string(t)) {
+        let wd: Vec<u32> = w.iter().copied().collect();
+        if wd.iter().all(|&c| c <= MAXC) {
+            let aw = s.ctx.atoms().word_of(&wd);
+            if !db.accepts(&aw) {
+                s.viol(rep, "witness", "witness:vs-construction", format!("get_string of the construction {} (term {}) = {} which is not in its SMT-LIB language", short(&rb.show(), 160), term_text(t), show_str(&wd)), k);
+            }
+        }
+    }
+}
+
 pub fn check_term(s: &mut Sess, rep: &mut Report, t: RegLan, k: usize) {
     let cap = closure_cap(s.thorough);
     let t0 = std::time::Instant::now();
@@ -96,6 +126,7 @@ pub fn check_program(prog: &Program, seed: u64, thorough: bool, rep: &mut Report
         let key = s.run.refs[k].show();
         rep.eval(if nontrivial { Some(&key) } else { None });
         check_term(&mut s, rep, t, k);
+        check_vs_construction(&mut s, rep, t, k);
     }
     // derivatives are inputs too: sample terms from the manager's store
     let all = s.m.verif_terms();
